@@ -13,6 +13,7 @@ import (
 	"github.com/markusressel/fan2go/internal/configuration"
 	"github.com/markusressel/fan2go/internal/fans"
 	"github.com/markusressel/fan2go/internal/sensors"
+	"github.com/markusressel/fan2go/internal/ui"
 	"github.com/markusressel/fan2go/internal/util"
 )
 
@@ -378,6 +379,9 @@ func init() {
 		if ctx.Batch == 2%ctx.Of && !ctx.Abort {
 			c19SensorMonitor(ctx, dir)
 		}
+		if ctx.Batch == 3%ctx.Of && !ctx.Abort {
+			c19AfterReportedError(ctx, dir)
+		}
 	})
 }
 
@@ -547,8 +551,10 @@ func c19SensorMonitor(ctx *Ctx, dir string) {
 		if stopped == "" {
 			select {
 			case <-done:
-			case <-time.After(10 * time.Second):
-				stopped = "the monitor did not stop 10 s after its context was cancelled"
+			// the monitor's loop chooses at random between "context cancelled" and "next tick" when both are ready, and with a
+			// command that takes 2.5 s per poll a tick is always ready: every extra poll has probability 1/2. 90 s is 36 polls.
+			case <-time.After(90 * time.Second):
+				stopped = "the monitor did not stop 90 s after its context was cancelled"
 			}
 		}
 		ctx.Eval(1)
@@ -559,6 +565,66 @@ func c19SensorMonitor(ctx *Ctx, dir string) {
 			ctx.Violation("sensor-monitor:healthy-readings-do-not-arrive:"+m.name, fmt.Sprintf("polling rate 100 ms, command %q: smoothed value still %.0f after %.1f s", m.script, avg, m.runFor.Seconds()), nil)
 		default:
 			ctx.Nontrivial("sensor-monitor|" + m.name)
+		}
+	}
+}
+
+// c19AfterReportedError: fan2go has reported a problem the way the daemon does (ui.ErrorAndNotify / WarningAndNotify:
+// "cannot start the metrics endpoint", "fan control error") in each of the desktop-session situations; commands that
+// fail afterwards must still come back with their error.
+func c19AfterReportedError(ctx *Ctx, dir string) {
+	sdir := filepath.Join(dir, "afterreport")
+	_ = os.MkdirAll(sdir, 0755)
+	fail := filepath.Join(sdir, "fail.sh")
+	_ = os.WriteFile(fail, []byte("#!/bin/sh\necho oops >&2\nexit 3\n"), 0755)
+	oldPath, oldDisplay, hadDisplay := os.Getenv("PATH"), os.Getenv("DISPLAY"), false
+	_, hadDisplay = os.LookupEnv("DISPLAY")
+	defer func() {
+		_ = os.Setenv("PATH", oldPath)
+		if hadDisplay {
+			_ = os.Setenv("DISPLAY", oldDisplay)
+		} else {
+			_ = os.Unsetenv("DISPLAY")
+		}
+	}()
+	for b := 0; b < 6; b++ {
+		sub := *ctx
+		sub.Batch = b
+		_ = os.Setenv("PATH", oldPath)
+		variant := setupDesktop(&sub)
+		ctx.LogCase(map[string]interface{}{"class": "after-reported-error:process-died:" + variant})
+		for _, how := range []string{"ErrorAndNotify", "WarningAndNotify"} {
+			reported := make(chan struct{})
+			go func() {
+				if how == "ErrorAndNotify" {
+					ui.ErrorAndNotify("Statistics Error", "Cannot start prometheus metrics endpoint (%s)", "listen tcp :9000: bind: address already in use")
+				} else {
+					ui.WarningAndNotify("Fan Controller: f1", "Something went wrong: %v", "fan stalled at max pwm")
+				}
+				close(reported)
+			}()
+			select {
+			case <-reported:
+			case <-time.After(15 * time.Second):
+				ctx.Violation("after-reported-error:reporting-blocks:"+how+":"+variant, "ui."+how+" had not returned after 15 s", nil)
+				return
+			}
+			for _, via := range []string{"SafeCmdExecution", "CmdSensor"} {
+				r := c19Call(via, fail, 2*time.Second)
+				ctx.Eval(1)
+				switch {
+				case r.blocked:
+					ctx.Violation("blocked-past-timeout:failing-command-after-a-reported-error:via="+via, fmt.Sprintf("desktop session %s, after ui.%s: a command exiting 3 had not returned %.0f s after the call", variant, how, r.elapsed.Seconds()), nil)
+					return
+				case r.panicMsg != "":
+					ctx.Violation("panic:failing-command-after-a-reported-error:via="+via, r.panicMsg, nil)
+					return
+				case r.err == nil:
+					ctx.Violation("failure-not-reported:failing-command-after-a-reported-error:via="+via, fmt.Sprintf("out=%q", trunc(r.out)), nil)
+					return
+				}
+			}
+			ctx.Nontrivial("after-reported-error|" + how + "|" + variant)
 		}
 	}
 }
